@@ -163,6 +163,10 @@ def run(ctx: Ctx) -> None:
         cases.append(e["witness"]); ctx.corpus_cases += 1
     for d in [{"k": 'x "b"'}, {"k": "'"}, {"k": "1"}, {"k": "true"}, {"k": ""}, {"a": {"b": [1, "2", {"c": None}]}}, {"k": "it's"}, {"#notinclude": 1}]:
         cases.append({"kind": "jdict", "d": enc(d)}); ctx.corpus_cases += 1
+    for _ in range(ctx.n(15, 300)):
+        d = gen.size_dict(rng)
+        if not any(isinstance(v, int) and not isinstance(v, bool) and abs(v) > 2**62 for v in d.values()):
+            cases.append({"kind": "jdict", "d": enc(d)})
     for _ in range(ctx.n(800, 16000)):
         cases.append({"kind": "jdict", "d": enc(gen_jdict(rng, rng.choice([1, 2, 3, 4])))})
     for _ in range(ctx.n(300, 6000)):
